@@ -5,6 +5,8 @@
 (*                     byte-stream tap (under the segmenting conn's lock / on the receiving side *)
 (*                     of a TCP socket) which re-parses the raw stream on its own; ok = the body *)
 (*                     is, byte for byte, message id of writer w (messages are self-describing)  *)
+(*   WF(w, id, len)    a Write call failed with zero bytes accepted by the transport             *)
+(*   WX(w, id, len)    a Write call refused its message                                          *)
 (*   R(w, id, len|err) one Read call of the receiving TLSConn / WebSocketConn returned           *)
 (*   End(cnt)          all writers finished (cnt[w] = successful Write calls of writer w), the   *)
 (*                     write side was closed and the reader stopped                              *)
@@ -27,6 +29,8 @@ tvars == <<vars, l, rbuf, rlen>>
 Ev == Trace[l]
 IsEvent(e) == l <= Len(Trace) /\ Ev.ev = e /\ l' = l + 1
 
+RealFmtMax == 65535
+
 Alpha(n) == IF n > rbuf THEN Buf + 1
             ELSE IF n = rbuf THEN Buf
             ELSE Min(n, Buf - 1)
@@ -36,6 +40,7 @@ TInit == RLInit /\ l = 1 /\ rbuf = 0 /\ rlen = <<>> /\ TLCSet(1, 1)
 TReset == /\ IsEvent("Reset")
           /\ wire' = <<>> /\ recs' = <<>>
           /\ cnt' = [w \in 1..NW |-> 0] /\ pend' = [w \in 1..NW |-> 0] /\ lock' = 0
+          /\ fails' = <<>> /\ broken' = FALSE /\ stale' = 0
           /\ phase' = "hdr" /\ need' = H /\ hgot' = <<>> /\ bgot' = <<>> /\ nbc' = 0
           /\ out' = <<>>
           /\ rbuf' = Ev.buf /\ rlen' = <<>>
@@ -44,9 +49,23 @@ TReset == /\ IsEvent("Reset")
 TWrite == /\ IsEvent("W")
           /\ Ev.ok /\ Ev.w \in 1..NW
           /\ Ev.id = cnt[Ev.w] + 1
+          /\ Ev.len <= RealFmtMax          \* an accepted message fits the 16-bit length field
           /\ WriteRec(Ev.w, Alpha(Ev.len))
           /\ rlen' = Append(rlen, Ev.len)
           /\ UNCHANGED rbuf
+
+\* a Write call reported failure and the transport had accepted none of its bytes: the message id is
+\* used up and the message must not show up (a later W or R naming it has no matching step)
+TWriteFail == /\ IsEvent("WF")
+              /\ Ev.w \in 1..NW /\ Ev.id = cnt[Ev.w] + 1 /\ Ev.sent = 0
+              /\ WriteFail(Ev.w, Alpha(Ev.len), 0)
+              /\ UNCHANGED <<rbuf, rlen>>
+
+\* a Write call refused its message (always allowed): the id is used up, nothing else happens
+TRefuse == /\ IsEvent("WX")
+           /\ Ev.w \in 1..NW /\ Ev.id = cnt[Ev.w] + 1
+           /\ cnt' = [cnt EXCEPT ![Ev.w] = @ + 1]
+           /\ UNCHANGED <<wire, recs, pend, lock, fails, broken, stale, rdvars, out, rbuf, rlen>>
 
 \* silent: one underlying Read
 TChunk == /\ need > 0 /\ wire # <<>>
@@ -63,14 +82,14 @@ TReturn == /\ IsEvent("R")
               /\ ~Ev.err => (Ev.w = recs[i].w /\ Ev.id = recs[i].k /\ Ev.len = rlen[i])
            /\ UNCHANGED <<rbuf, rlen>>
 
-\* clean end of a connection: every successful Write reached the wire, and unless the reader
+\* clean end of a connection (cnt[w] = Write calls of writer w that returned): every accepted Write reached the wire, and unless the reader
 \* stopped on an oversize record everything on the wire was returned
 TEnd == /\ IsEvent("End")
         /\ \A w \in 1..Len(Ev.cnt) : w \in 1..NW /\ cnt[w] = Ev.cnt[w]
         /\ phase = "dead" \/ (wire = <<>> /\ phase = "hdr" /\ need = H /\ Len(out) = Len(recs))
         /\ UNCHANGED <<vars, rbuf, rlen>>
 
-TNext == TReset \/ TWrite \/ TChunk \/ TReturn \/ TEnd
+TNext == TReset \/ TWrite \/ TWriteFail \/ TRefuse \/ TChunk \/ TReturn \/ TEnd
 TSpec == TInit /\ [][TNext]_tvars
 
 HW == TLCSet(1, IF l > TLCGet(1) THEN l ELSE TLCGet(1))
